@@ -46,7 +46,9 @@ PROVED = (
     '_estimate_remaining_bs_poses terminates and raises iff some station is not linked to the reference through shared '
     'samples, else returns exactly the linked stations; `estimate` after _angles_to_poses: no-reference / cannot-link / '
     'crash-on-empty-sample / answer, classified exactly; reference = smallest id of the first sample with >= 2 stations; '
-    'for consistent per-sample poses over any group the answer is the truth in the frame of that sample\'s Crazyflie.')
+    'for consistent per-sample poses over any group the answer is the truth in the frame of that sample\'s Crazyflie. '
+    'REFUTED (theorem C09_mirror_vote_refuted over the model of _find_most_likely_positions, C09/Vote.v): the cluster '
+    'vote does not isolate the true relative station position even if every sample contains it exactly.')
 NOT_PROVED = (
     'That IPPE (SVD homography), the mirror-solution cluster vote (accept_radius 0.8, OUTLIER_DETECTION_ERROR 0.5), '
     'quaternion averaging by eigen-decomposition and <= 100 evaluations of scipy least_squares reach the truth within '
@@ -77,7 +79,7 @@ def generate(ctx):
 
 # ---------------------------------------------------------------------------------------------- matcher: cases
 
-HEADER = '''From CF Require Import Common.Bytes C09.Model.
+HEADER = '''From CF Require Import Common.Bytes C09.Model C09.Vote.
 Open Scope Z_scope.
 Definition flat_sample (s : Z * list (Z * Z)) : list Z :=
   fst s :: Z.of_nat (length (snd s)) :: flat_map (fun e => [fst e; snd e]) (snd s).
@@ -89,6 +91,9 @@ Definition alpha : list (Z * Z) := flat_map (fun t => map (fun b => (t, b)) [0; 
 Fixpoint lists_of (n : nat) : list (list (Z * Z)) :=
   match n with O => [[]] | S k => flat_map (fun x => map (cons x) (lists_of k)) alpha end.
 Definition run_all (d mn : Z) (n : nat) : list Z := concat (map (run_match d mn) (lists_of n)).
+Definition near_q (a b : Z) : bool := Z.abs (a - b) <? 4.     (* positions in quarter metres: |d|/4 < 0.8 <-> |d| <= 3 *)
+Definition run_vote (pl : list (list Z)) : Z * Z :=
+  let b := vote near_q pl in (fold_right Z.add 0 b, Z.of_nat (length b)).
 Definition encp (e : Z * Z) : Z := fst e * 4294967296 + (snd e + 2147483648).
 Definition enc_lres (r : lres (list (Z * Z))) : list Z :=
   match r with LOk bp => 1 :: sort_ids (map encp bp) | LRaise => [2] | LFuel => [3] end.
@@ -460,15 +465,59 @@ def _tie_link(ctx, dis, info):
     return len(cases) + len(ecases), len(nontriv), [cases[0], ecases[0]]
 
 
+def _impl_vote(pl):
+    """Real _find_most_likely_positions for one station pair; candidate positions k/4 metres on the x axis."""
+    import numpy as np
+    from cflib.localization.lighthouse_initial_estimator import BsPairIds, LighthouseInitialEstimator as E
+    lists = [[np.array((k / 4.0, 0.0, 0.0)) for k in cands] for cands in pl]
+    try:
+        r = E._find_most_likely_positions({BsPairIds(1, 2): lists})
+        v = r[BsPairIds(1, 2)]
+        return [float(v[0]), float(v[1]), float(v[2])]
+    except Exception as e:  # noqa
+        return ['raise', type(e).__name__]
+
+
+def _tie_vote(ctx, dis, info):
+    cases = []
+    for _ in range(ctx.scale(250, 3000)):
+        n = ctx.rng.randint(1, 6)
+        truth = ctx.rng.randint(-20, 20)
+        pl = []
+        for _k in range(n):
+            c = [truth] + [truth + ctx.rng.choice([-1, 1]) * ctx.rng.choice([1, 2, 3, 3, 4, 4, 5, 8, 15]) for _j in range(3)]
+            if ctx.rng.random() < 0.5:
+                ctx.rng.shuffle(c)
+            pl.append(c)
+        cases.append(pl)
+    model = coqrun.eval_terms(HEADER, ['run_vote [%s]' % '; '.join(coqrun.zlist(c) for c in pl) for pl in cases],
+                              tag='c09v', shard=40)
+    polluted = 0
+    for pl, mv in zip(cases, model):
+        iv = _impl_vote(pl)
+        ssum, cnt = mv
+        ok = (iv[:1] != ['raise'] and cnt > 0 and abs(iv[0] - ssum / cnt / 4.0) < 1e-9 and abs(iv[1]) < 1e-12
+              and abs(iv[2]) < 1e-12)
+        if not ok and len(dis) < 16:
+            dis.append({'what': '_find_most_likely_positions: model (C09/Vote.v) and implementation differ',
+                        'case': {'kind': 'vote', 'position_lists': pl}, 'model': [ssum, cnt], 'impl': iv})
+        if cnt and ssum != cnt * pl[0][0] and all(pl[0][0] in c for c in pl):
+            polluted += 1
+    info['vote'] = {'cases': len(cases), 'winning_bucket_mean_not_truth_although_truth_in_every_sample': polluted}
+    return len(cases), polluted, [{'vote_position_lists_quarter_metres': cases[0]}]
+
+
 def tie(ctx):
     dis = []
     info = {}
     n1, nt1, s1 = _tie_matcher(ctx, dis, info)
     n2, nt2, s2 = _tie_link(ctx, dis, info)
-    return {'evaluations': n1 + n2, 'distinct_nontrivial': nt1 + nt2,
+    n3, nt3, s3 = _tie_vote(ctx, dis, info)
+    return {'evaluations': n1 + n2 + n3, 'distinct_nontrivial': nt1 + nt2 + nt3,
             'rule': 'matcher: >= 2 output samples and some measurement overwritten or filtered; linkage: >= 3 stations '
-                    'and (raises or resolves >= 2 stations beyond the known ones)',
-            'samples': s1 + s2, 'distribution': info, 'exhaustive': False, 'disagreements': dis}
+                    'and (raises or resolves >= 2 stations beyond the known ones); vote: a mirror candidate ends up in '
+                    'the winning bucket although every sample contains the exact truth',
+            'samples': s1 + s2 + s3, 'distribution': info, 'exhaustive': False, 'disagreements': dis}
 
 
 # ---------------------------------------------------------------------------------------------- oracle
@@ -656,7 +705,7 @@ def oracle(ctx, deep=False):
                 n_known += 1
             if not any(x['class'] == j[0] for x in failures):
                 failures.append(_room_failure(case, j, 'room'))
-    limit = max(5, (n_rooms * 8) // 100)
+    limit = max(6, (n_rooms * 8) // 100)
     if n_known >= limit:
         failures.append({'class': 'mirror_failure_rate_excessive', 'case': {'kind': 'rate', 'rooms': n_rooms,
                          'seed': ctx.seed, 'tier': ctx.tier}, 'expected': 'fewer than %d of %d rooms' % (limit, n_rooms),
